@@ -67,6 +67,7 @@ func (c06Discard) Write(p []byte) (int, error) { return len(p), nil }
 var c06Sink io.Writer = c06Discard{}
 
 func c06Run(c c06Case) (fail *vlib.Failure, rs c06Stats) {
+	defer vlib.Guard("C06", c, nil)()
 	m := vmNew()
 	kfmt.SetOutputSink(c06Sink)
 	defer kfmt.SetOutputSink(nil)
